@@ -56,7 +56,7 @@ def family(prop, tier, exe, wd):
         jobs = [j for j in big if j["id"].startswith("builtin-super-dvorak") or j["id"].startswith("readme")] + small + F.small_n4("n4norep", pred, 50 if not thorough else 500)
     elif prop == "C08":
         small = F.small_family("abs", F.has_abs, sz["per_pair"], sz["n_triples"] * 2, sd, sz["extra_pairs"], sz["extra_triples"] * 2)
-        jobs = small + abs_extra(thorough) + F.abs_cross(every=1 if thorough else 2) + F.small_n4("n4abs", F.has_abs, 50 if not thorough else 500)
+        jobs = small + abs_extra(thorough) + F.abs_cross(every=1 if thorough else 3) + F.small_n4("n4abs", F.has_abs, 36 if not thorough else 500)
     else:
         raise ToolError("no family for " + prop)
     pred = {"C03": F.no_abs, "C04": F.no_abs, "C07": F.has_norep, "C09": F.has_special, "C08": F.has_abs}.get(prop)
@@ -81,6 +81,16 @@ def fancy_ref_jobs(pred, n):
         wd = workdir("fancygen-cache")
         p, _ = e3.generate(wd, "FancyGen", {"Size": 1}, timeout=1800, mem="8g")
         os.replace(p, cpath)
+    # spread the sample over the kinds of source programs (which item types, which repeat modes, absorbing or not), not over their number
+    def sig(src, lay):
+        items = src.get("mappings", [])
+        kinds = set()
+        for m in items:
+            if isinstance(m, dict):
+                to = m.get("to")
+                kinds.add("alias" if isinstance(to, str) and to.startswith("@") or (isinstance(to, list) and to and isinstance(to[-1], str) and to[-1].startswith("@") and "from" in m and len(m) <= 2)
+                          else "reponly" if "to" not in m and "repeat" in m else "row" if any(isinstance(x, dict) for x in (m.get("from") if isinstance(m.get("from"), list) else [])) else "single")
+        return (tuple(sorted(kinds)), tuple(sorted({m["repeat"]["kind"] for m in lay})), any(m["absorbing"] for m in lay), len(lay))
     out, seen = [], set()
     with open(cpath) as f:
         for line in f:
@@ -93,14 +103,24 @@ def fancy_ref_jobs(pred, n):
                 continue
             if pred is not None and not pred(lay):
                 continue
-            key = json.dumps(lay, sort_keys=True)
+            key = json.dumps(lay, sort_keys=True) + str(sig(c["json"], lay)[0])     # one per (reference layout, kinds of source items)
             if key in seen:
                 continue
             seen.add(key)
             out.append((c["id"], c["json"], lay))
-    step = max(1, len(out) // n)
+    groups = {}
+    for t in out:
+        groups.setdefault(sig(t[1], t[2]), []).append(t)
+    picked = []
+    gl = [groups[k] for k in sorted(groups, key=str)]
+    i = 0
+    while len(picked) < n and any(gl):
+        g = gl[i % len(gl)]
+        if g:
+            picked.append(g.pop(len(g) // 2))
+        i += 1
     jobs = []
-    for cid, src, lay in out[::step][:n]:
+    for cid, src, lay in picked:
         ks = []
         for m in lay:
             for k in m["from"] + m["to"] + m["absorbing"]:
